@@ -3,7 +3,7 @@ import itertools
 import os
 import ssl
 
-from .. import tlsrig
+from .. import approute, tlsrig
 from ..runner import HarnessError, Obs, exc_bucket
 
 ID = "C11"
@@ -17,7 +17,7 @@ RULE = (
     "localhost, other.test} x WEBSOCKET_CLIENT_CA_BUNDLE {unset, file, dir, nonexistent; only without user trust options} x "
     "URL {wss://localhost, wss://127.0.0.1, ws://localhost} x {direct, through a local CONNECT proxy} x server certificate; "
     "plus wss targets reached through a 302 from ws:// {same port, other port} x {connection kept open, Connection: close} x trust x {default, CERT_NONE, check_hostname=False, NONE+True} x certificate; "
-    "plus ssl_version {PROTOCOL_TLS, PROTOCOL_TLSv1_2} x trust x cert_reqs x check_hostname x certificate. "
+    "plus the same options through WebSocketApp.run_forever(sslopt=..., proxy options) for a sub-product; plus ssl_version {PROTOCOL_TLS, PROTOCOL_TLSv1_2} x trust x cert_reqs x check_hostname x certificate. "
     "Non-trivial: wss cases in which at least one of the two checks (chain, host name) is active, and configuration errors. "
     "Distinct = the configuration (enumeration without repeats)."
 )
@@ -122,8 +122,16 @@ def run_case(c):
     raised, ws = None, None
     try:
         try:
-            ws = websocket.WebSocket(sslopt=sslopt)
-            ws.connect(url, timeout=5, **kw)
+            if c.get("api") == "app":
+                # WebSocketApp: sslopt (and the proxy) are run_forever arguments
+                websocket.setdefaulttimeout(5)
+                try:
+                    ws = approute.connect(websocket, url, dict(kw, sslopt=sslopt))
+                finally:
+                    websocket.setdefaulttimeout(None)
+            else:
+                ws = websocket.WebSocket(sslopt=sslopt)
+                ws.connect(url, timeout=5, **kw)
         except Exception as e:  # noqa: BLE001
             raised = e
         finally:
@@ -205,7 +213,7 @@ def run_case(c):
             obs.fail(f"{tag}|sni", f"SNI {rec['sni']!r}, expected {want_sni!r}; cfg={c}")
     active = secure and (exp == "config-error" or not c["trust"] == "ctx-unverified" and not (c.get("cert_reqs") == "NONE"))
     obs.cls = (c["scheme"], "proxy" if c["proxy"] else "direct", f"cert:{c['cert']}", f"trust:{c['trust']}", f"exp:{exp}", f"why:{why}",
-               f"cert_reqs:{c.get('cert_reqs')}", f"check_hostname:{c.get('check_hostname')}", f"server_hostname:{c.get('server_hostname')}", f"env:{c.get('env')}", f"ssl_version:{c.get('ssl_version')}")
+               f"cert_reqs:{c.get('cert_reqs')}", f"check_hostname:{c.get('check_hostname')}", f"server_hostname:{c.get('server_hostname')}", f"env:{c.get('env')}", f"ssl_version:{c.get('ssl_version')}", f"api:{c.get('api', 'connect')}")
     obs.nt = repr(sorted(c.items())) if active else None
     return obs
 
@@ -295,6 +303,17 @@ def configs():
                            "server_hostname": sh, "env": None}
 
 
+    # the same options through WebSocketApp.run_forever(sslopt=...)
+    for cert in ("good", "other", "rogue"):
+        for proxy in (False, True):
+            for trust in ("none", "ca_certs=testca", "ca_certs=rogueca", "ca_cert_path", "ctx-verified", "ctx-unverified"):
+                for cr, ch in ((None, None), ("NONE", None), ("NONE", False), ("REQUIRED", False), ("OPTIONAL", True), ("NONE", True)):
+                    if trust.startswith("ctx") and (cr, ch) != (None, None):
+                        continue
+                    for sh in (None, "other.test"):
+                        yield {"api": "app", "scheme": "wss", "host": "localhost", "cert": cert, "proxy": proxy, "trust": trust, "cert_reqs": cr, "check_hostname": ch,
+                               "server_hostname": sh, "env": None}
+            yield {"api": "app", "scheme": "ws", "host": "localhost", "cert": cert, "proxy": proxy, "trust": "none", "cert_reqs": "REQUIRED", "check_hostname": None, "server_hostname": "other.test", "env": None}
     # a wss scheme spelled with upper-case letters is either refused (ValueError, nothing sent) or treated as wss - never as plain ws
     for cert in ("good", "rogue"):
         for sp in ("WSS", "Wss", "wsS"):
